@@ -39,12 +39,12 @@ CONSTANTS Threads,    \* e.g. {"t1","t2","t3"}
           Export      \* BOOLEAN
 
 VARIABLES prog, pc, fpc, tgen, waitOn, fval, fres, gen, now, cache, nextVal, ans,
-          startGen, valEndGen, lock, h
+          startGen, valBeginGen, fbg, lock, h
 
 vars == <<prog, pc, fpc, tgen, waitOn, fval, fres, gen, now, cache, nextVal, ans,
-          startGen, valEndGen, lock, h>>
+          startGen, valBeginGen, fbg, lock, h>>
 View == <<prog, pc, fpc, tgen, waitOn, fval, fres, gen, now, cache, nextVal, ans,
-          startGen, valEndGen, lock>>
+          startGen, valBeginGen, fbg, lock>>
 
 Ops == [op : {"load"}, key : Keys] \cup [op : {"reset"}] \cup [op : {"tick"}]
 None == [val |-> 0, exp |-> 0]
@@ -70,7 +70,8 @@ Init == /\ prog \in {f \in [Threads -> Ops] :
         /\ nextVal = 1
         /\ ans = [t \in Threads |-> 0]
         /\ startGen = [t \in Threads |-> 0]
-        /\ valEndGen = <<>>
+        /\ valBeginGen = <<>>
+        /\ fbg = [t \in Threads |-> 0]
         /\ lock = "none"
         /\ h = <<>>
 
@@ -87,7 +88,7 @@ LoadStart(t) ==
          THEN ans' = [ans EXCEPT ![t] = cache[Key(t)].val] /\ pc' = [pc EXCEPT ![t] = "done"]
          ELSE UNCHANGED ans /\ pc' = [pc EXCEPT ![t] = "miss"]
     /\ h' = Append(h, t)
-    /\ UNCHANGED <<prog, fpc, waitOn, fval, fres, gen, now, cache, nextVal, valEndGen, lock>>
+    /\ UNCHANGED <<prog, fpc, waitOn, fval, fres, gen, now, cache, nextVal, valBeginGen, lock, fbg>>
 
 JoinFlight(t) ==
     /\ pc[t] = "miss"
@@ -99,7 +100,7 @@ JoinFlight(t) ==
                 /\ fpc' = [fpc EXCEPT ![t] = "enter"]
     /\ pc' = [pc EXCEPT ![t] = "wait"]
     /\ h' = Append(h, t)
-    /\ UNCHANGED <<prog, tgen, fval, fres, gen, now, cache, nextVal, ans, startGen, valEndGen, lock>>
+    /\ UNCHANGED <<prog, tgen, fval, fres, gen, now, cache, nextVal, ans, startGen, valBeginGen, fbg, lock>>
 
 FlightEnter(l) ==
     /\ fpc[l] = "enter" /\ Free
@@ -107,17 +108,18 @@ FlightEnter(l) ==
          THEN /\ fres' = [fres EXCEPT ![l] = cache[Key(l)].val]
               /\ fpc' = [fpc EXCEPT ![l] = "fin"]
          ELSE /\ fpc' = [fpc EXCEPT ![l] = "loading"] /\ UNCHANGED fres
+    /\ fbg' = [fbg EXCEPT ![l] = gen]          \* generation when the backend fetch begins
     /\ h' = Append(h, l \o "f")
-    /\ UNCHANGED <<prog, pc, tgen, waitOn, fval, gen, now, cache, nextVal, ans, startGen, valEndGen, lock>>
+    /\ UNCHANGED <<prog, pc, tgen, waitOn, fval, gen, now, cache, nextVal, ans, startGen, valBeginGen, lock>>
 
 FlightLoad(l) ==
     /\ fpc[l] = "loading"
     /\ fval' = [fval EXCEPT ![l] = nextVal]
     /\ nextVal' = nextVal + 1
-    /\ valEndGen' = Append(valEndGen, gen)
+    /\ valBeginGen' = Append(valBeginGen, fbg[l])
     /\ fpc' = [fpc EXCEPT ![l] = "loaded"]
     /\ h' = Append(h, l \o "f")
-    /\ UNCHANGED <<prog, pc, tgen, waitOn, fres, gen, now, cache, ans, startGen, lock>>
+    /\ UNCHANGED <<prog, pc, tgen, waitOn, fres, gen, now, cache, ans, startGen, lock, fbg>>
 
 FlightStore(l) ==
     /\ fpc[l] = "loaded" /\ Free
@@ -127,19 +129,19 @@ FlightStore(l) ==
     /\ fres' = [fres EXCEPT ![l] = fval[l]]
     /\ fpc' = [fpc EXCEPT ![l] = "fin"]
     /\ h' = Append(h, l \o "f")
-    /\ UNCHANGED <<prog, pc, tgen, waitOn, fval, gen, now, nextVal, ans, startGen, valEndGen, lock>>
+    /\ UNCHANGED <<prog, pc, tgen, waitOn, fval, gen, now, nextVal, ans, startGen, valBeginGen, fbg, lock>>
 
 Return(t) ==
     /\ pc[t] = "wait" /\ fpc[waitOn[t]] = "fin"
     /\ ans' = [ans EXCEPT ![t] = fres[waitOn[t]]]
     /\ pc' = [pc EXCEPT ![t] = "done"]
-    /\ UNCHANGED <<prog, fpc, tgen, waitOn, fval, fres, gen, now, cache, nextVal, startGen, valEndGen, h, lock>>
+    /\ UNCHANGED <<prog, fpc, tgen, waitOn, fval, fres, gen, now, cache, nextVal, startGen, valBeginGen, h, lock, fbg>>
 
 ResetEnter(t) ==
     /\ pc[t] = "start" /\ prog[t].op = "reset"
     /\ pc' = [pc EXCEPT ![t] = "r1"]
     /\ h' = Append(h, t)
-    /\ UNCHANGED <<prog, fpc, tgen, waitOn, fval, fres, gen, now, cache, nextVal, ans, startGen, valEndGen, lock>>
+    /\ UNCHANGED <<prog, fpc, tgen, waitOn, fval, fres, gen, now, cache, nextVal, ans, startGen, valBeginGen, fbg, lock>>
 
 ResetMid(t) ==
     /\ pc[t] = "r1" /\ Free
@@ -147,7 +149,7 @@ ResetMid(t) ==
     /\ lock' = t
     /\ pc' = [pc EXCEPT ![t] = "r2"]
     /\ h' = Append(h, t)
-    /\ UNCHANGED <<prog, fpc, tgen, waitOn, fval, fres, now, cache, nextVal, ans, startGen, valEndGen>>
+    /\ UNCHANGED <<prog, fpc, tgen, waitOn, fval, fres, now, cache, nextVal, ans, startGen, valBeginGen, fbg>>
 
 ResetEnd(t) ==
     /\ pc[t] = "r2"
@@ -155,14 +157,14 @@ ResetEnd(t) ==
     /\ lock' = "none"
     /\ pc' = [pc EXCEPT ![t] = "done"]
     /\ h' = Append(h, t)
-    /\ UNCHANGED <<prog, fpc, tgen, waitOn, fval, fres, gen, now, nextVal, ans, startGen, valEndGen>>
+    /\ UNCHANGED <<prog, fpc, tgen, waitOn, fval, fres, gen, now, nextVal, ans, startGen, valBeginGen, fbg>>
 
 Tick(t) ==
     /\ pc[t] = "start" /\ prog[t].op = "tick"
     /\ now' = now + 1
     /\ pc' = [pc EXCEPT ![t] = "done"]
     /\ h' = Append(h, t)
-    /\ UNCHANGED <<prog, fpc, tgen, waitOn, fval, fres, gen, cache, nextVal, ans, startGen, valEndGen, lock>>
+    /\ UNCHANGED <<prog, fpc, tgen, waitOn, fval, fres, gen, cache, nextVal, ans, startGen, valBeginGen, fbg, lock>>
 
 Next == \E t \in Threads : \/ LoadStart(t) \/ JoinFlight(t) \/ Return(t) \/ Tick(t)
                            \/ ResetEnter(t) \/ ResetMid(t) \/ ResetEnd(t)
@@ -172,9 +174,9 @@ Spec == Init /\ [][Next]_vars
 AllDone == \A t \in Threads : pc[t] = "done"
 
 ----------------------------------------------------------------------------
-\* a request that started after reset n is never answered with a value obtained before reset n
+\* a request that started after reset n is never answered with a value whose fetch began before reset n
 NoStale == \A t \in Threads :
-              (prog[t].op = "load" /\ pc[t] = "done") => valEndGen[ans[t]] >= startGen[t]
+              (prog[t].op = "load" /\ pc[t] = "done") => valBeginGen[ans[t]] >= startGen[t]
 \* at most one backend fetch in flight per key and cache generation
 OneFlight == \A l1, l2 \in Threads :
                (l1 # l2 /\ fpc[l1] \in {"loading", "loaded"} /\ fpc[l2] \in {"loading", "loaded"}
